@@ -55,6 +55,7 @@ func (edb *EventDb) addBurnTicket(burnTicket BurnTicket) error {
 	return nil
 }
 
+// burn tickets are append-only: one per burn, also for burns to the same address in a block
 func mergeAddBurnTicket() *eventsMergerImpl[BurnTicket] {
-	return newEventsMerger[BurnTicket](TagAddBurnTicket, withUniqueEventOverwrite())
+	return newEventsMerger[BurnTicket](TagAddBurnTicket)
 }
